@@ -24,6 +24,9 @@ def make_app(problem, valid_gids):
         from pysph.examples.cavity import LidDrivenCavity as Base
     elif problem == 'tg':
         from pysph.examples.taylor_green import TaylorGreen as Base
+    elif problem == 'sod':
+        # 1-D gas dynamics in a mirror domain, variable smoothing length
+        from pysph.examples.gas_dynamics.sod_shocktube import SodShockTube as Base
     else:
         raise ValueError(problem)
 
@@ -44,4 +47,6 @@ def problem_args(problem, nx):
         return ['--nx', str(nx)]
     if problem == 'tg':
         return ['--nx', str(nx), '--scheme', 'tvf']
+    if problem == 'sod':
+        return ['--nl', str(nx), '--scheme', 'mpm']
     raise ValueError(problem)
